@@ -1,9 +1,8 @@
 (* Small dense matrices over a numeric signature `Num K` as lists (matrix = list of rows, the way numpy
    prints them), the numpy primitives the EigenSolve model (C11) is written with, and their algebra for
    any commutative ring / field with Leibniz equality (R, pairs of reals = complex numbers, ...).
-   Also: the Gaussian rationals Q[i] (evaluation domain for complex128 data, exact on Fraction(float)),
-   approximate square roots on Q and Q[i] (100 extra bits; used only when the model is evaluated),
-   and the complex numbers over R as a field (instance for the generic theorems). *)
+   Also: the complex numbers over R as a field (instance for the generic theorems), and the evaluation
+   domains Q / Gaussian rationals Q[i] (exact + - *, division and square root rounded to 128 bits). *)
 From Coq Require Import ZArith QArith Qabs Reals List Lia Lra Ring Field Bool Permutation.
 From Pymoto Require Import Base.Num.
 Import ListNotations.
@@ -234,7 +233,34 @@ Proof.
 Qed.
 
 (* ------------------------------------------------------------------------------------------------ *)
-(* Gaussian rationals: evaluation domain for complex128 data                                         *)
+(* evaluation domains: float64 data as exact rationals, complex128 data as Gaussian rationals.
+   + - * are exact (dyadic numbers stay dyadic); division and square root are ROUNDED to >= 128 significant
+   bits and return dyadic numbers, so that numerals stay small under vm_compute (exact quotients of 700-bit
+   numbers make Qred's gcd take seconds).  These instances are used only to evaluate the model in the
+   correspondence check, where results are compared with float64 results at 1e-9. *)
+Definition div_bits : Z := 128.
+Definition Qdivr (a b : Q) : Q :=
+  let n := (Qnum a * Zpos (Qden b))%Z in
+  let d := (Zpos (Qden a) * Qnum b)%Z in
+  if (d =? 0)%Z then 0%Q
+  else
+    let n' := (if (d <? 0)%Z then - n else n)%Z in
+    let d' := Z.abs d in
+    if (n' =? 0)%Z then 0%Q
+    else
+      let p := (div_bits + Z.max 0 (Z.log2 d' - Z.log2 (Z.abs n')))%Z in
+      Qred (Qmake ((n' * 2 ^ p) / d') (Z.to_pos (2 ^ p))).
+Definition Qsqrt (x : Q) : Q :=
+  let n := Qnum x in
+  let d := Zpos (Qden x) in
+  if (n <=? 0)%Z then 0%Q
+  else
+    let p := (div_bits + Z.max 0 ((Z.log2 d - Z.log2 n) / 2 + 1))%Z in
+    Qred (Qmake (Z.sqrt ((n * 4 ^ p) / d)) (Z.to_pos (2 ^ p))).
+Definition NumQd : Num Q :=
+  {| nzero := 0%Q; none_ := 1%Q; nadd := Qradd; nmul := Qrmul; nsub := Qrsub; nopp := Qopp;
+     ndiv := Qdivr; nofZ := fun z => inject_Z z |}.
+
 Definition QC : Type := (Q * Q)%type.
 Definition qc_add (a b : QC) : QC := (Qradd (fst a) (fst b), Qradd (snd a) (snd b)).
 Definition qc_sub (a b : QC) : QC := (Qrsub (fst a) (fst b), Qrsub (snd a) (snd b)).
@@ -243,23 +269,13 @@ Definition qc_mul (a b : QC) : QC :=
   (Qrsub (Qrmul (fst a) (fst b)) (Qrmul (snd a) (snd b)), Qradd (Qrmul (fst a) (snd b)) (Qrmul (snd a) (fst b))).
 Definition qc_div (a b : QC) : QC :=
   let d := Qradd (Qrmul (fst b) (fst b)) (Qrmul (snd b) (snd b)) in
-  (Qrdiv (Qradd (Qrmul (fst a) (fst b)) (Qrmul (snd a) (snd b))) d,
-   Qrdiv (Qrsub (Qrmul (snd a) (fst b)) (Qrmul (fst a) (snd b))) d).
-#[global] Instance NumQC : Num QC :=
+  (Qdivr (Qradd (Qrmul (fst a) (fst b)) (Qrmul (snd a) (snd b))) d,
+   Qdivr (Qrsub (Qrmul (snd a) (fst b)) (Qrmul (fst a) (snd b))) d).
+Definition NumQCd : Num QC :=
   {| nzero := (0, 0)%Q; none_ := (1, 0)%Q; nadd := qc_add; nmul := qc_mul; nsub := qc_sub; nopp := qc_opp;
      ndiv := qc_div; nofZ := fun z => (inject_Z z, 0%Q) |}.
 Definition qc_conj (a : QC) : QC := (fst a, Qopp (snd a)).
 Definition qc_abs2 (a : QC) : Q := Qradd (Qrmul (fst a) (fst a)) (Qrmul (snd a) (snd a)).
-Definition qre (x : Q) : QC := (x, 0%Q).
-
-(* approximate square root of a non-negative rational: |Qsqrt x - sqrt x| <= 2^-100 (x >= 2^-100 ...);
-   used only for evaluation, compared with float64 results at 1e-9 *)
-Definition sqrt_bits : Z := 100.
-Definition Qsqrt (x : Q) : Q :=
-  let n := Qnum x in
-  let d := Zpos (Qden x) in
-  if (n <=? 0)%Z then 0%Q
-  else Qred (Qmake (Z.sqrt (n * d * 4 ^ sqrt_bits)) (Z.to_pos (d * 2 ^ sqrt_bits))).
 
 (* principal complex square root (numpy branch: real part >= 0; on the negative real axis +i*sqrt|a|) *)
 Definition QCsqrt (z : QC) : QC :=
@@ -267,9 +283,9 @@ Definition QCsqrt (z : QC) : QC :=
   let r := Qsqrt (qc_abs2 z) in
   if Qeq_bool r 0 then (0, 0)%Q
   else if Qle_bool 0 a then
-    let re := Qsqrt (Qrdiv (Qradd r a) 2) in
-    (re, Qrdiv b (Qrmul 2 re))
+    let re := Qsqrt (Qdivr (Qradd r a) 2) in
+    (re, Qdivr b (Qrmul 2 re))
   else
-    let im := Qsqrt (Qrdiv (Qrsub r a) 2) in
-    let re := Qrdiv (Qabs b) (Qrmul 2 im) in
+    let im := Qsqrt (Qdivr (Qrsub r a) 2) in
+    let re := Qdivr (Qabs b) (Qrmul 2 im) in
     (re, if Qle_bool 0 b then im else Qopp im).
